@@ -14,6 +14,7 @@ import pymbolic.mapper.differentiator as diffmod
 
 from ..core import check, short
 from ..gen import expr as G
+from ..gen import scale
 from ..mon import streams
 from ..mon.trace import HandlerTrace
 from ..ref import normal, refsem
@@ -418,6 +419,24 @@ def workload(ctx):
                             and not any(isinstance(x, p.Power) and isinstance(x.exponent, p.Expression)
                                         for x in G.walk(e)):
                         ctx.run("C10.diff", (e, setting, True, k))
+        # scale: sums / products of 9 .. 130 operands (constants and other variables before,
+        # between and after the dependent ones), long quotient / power chains
+        for w in scale.WIDTHS:
+            if not ctx.mine("wide"):
+                continue
+            for cls in (p.Product, p.Sum):
+                ops = [rng.choice([3, Y, p.Sum((X, i % 7 + 1)), p.Sum((X, i % 7 + 1)), X, 2, Z,
+                                   p.Product((2, X)), p.Power(p.Sum((X, 2)), 2), p.Subscript(A, 0)])
+                       for i in range(w)]
+                e = cls(tuple(ops))
+                ctx.count("wide_nodes")
+                ctx.run("C10.diff", (e, "none", True, rng.randrange(10**9)))
+            n = min(w, 7)      # (the quotient rule mentions f and g twice: size doubles per level)
+            e = scale.chain(p.Quotient, n, [p.Sum((X, 1))] + [rng.choice([3, Y, p.Sum((X, 5)), 2])
+                                                               for _ in range(n)])
+            ctx.run("C10.diff", (e, "none", True, rng.randrange(10**9)))
+            e = p.Sum(tuple(p.Product((i + 1, p.Power(X, i % 5))) for i in range(w)))
+            ctx.run("C10.diff", (e, "none", True, rng.randrange(10**9)))
         n = ctx.per_shard(ctx.pick(2500, 50000))
         for i in range(n):
             alg = i % 2 == 0
@@ -468,6 +487,7 @@ def workload(ctx):
         for k, v in tr.counts.items():
             if k.endswith("map_math_functions_by_name"):
                 ctx.count("handler:map_math_functions_by_name", v)
+    ctx.floor("wide_nodes", 50)
     ctx.floor("stream:rows", 300)
     ctx.floor("stream:compared_exactly", 500)
     ctx.floor("stream:row_address_reused", 100)
